@@ -1,0 +1,26 @@
+/*
+ * Copyright 2025 The Go-Spring Authors.
+ *
+ * Licensed under the Apache License, Version 2.0 (the "License");
+ * you may not use this file except in compliance with the License.
+ * You may obtain a copy of the License at
+ *
+ *      https://www.apache.org/licenses/LICENSE-2.0
+ *
+ * Unless required by applicable law or agreed to in writing, software
+ * distributed under the License is distributed on an "AS IS" BASIS,
+ * WITHOUT WARRANTIES OR CONDITIONS OF ANY KIND, either express or implied.
+ * See the License for the specific language governing permissions and
+ * limitations under the License.
+ */
+
+package log
+
+import "sync"
+
+// rotationLock coordinates the writers of a RollingFileAppender with file
+// rotation: a write holds it shared, a rotation holds it exclusively, so a
+// file is never closed while a writer that loaded it is still using it.
+type rotationLock struct {
+	sync.RWMutex
+}
